@@ -390,6 +390,10 @@ def gen_instances(rng, tier):
     # Directed, in every run: integral source -> floating target with factors so large that the SCALING step (done in the
     # floating type) leaves the target's finite range for some source values and not for others; factors the target
     # cannot represent at all (the conversion must not compile); and the reciprocal direction (tiny results).
+    for (s, t) in POW2_NUM_PAIRS:
+        for (n, d) in POW2_NUM_FACTORS:
+            if not any(i["S"] == s and i["T"] == t and (i["N"], i["D"]) == (n, d) for i in inst):
+                inst.append({"id": len(inst), "S": s, "T": t, "C": common(s, t), "N": n, "D": d, "pf": pf_text(n, d), "directed": True})
     for (s, t, n, d) in TWO_PRIME_INSTANCES:
         inst.append({"id": len(inst), "S": s, "T": t, "C": common(s, t), "N": n, "D": d, "pf": pf_text(n, d), "directed": True})
     for s in HUGE_SOURCES:
@@ -404,6 +408,11 @@ def gen_instances(rng, tier):
 TWO_PRIME_INSTANCES = [("f80", "f64", 9, 142903 * 169583), ("f64", "f64", 142903 * 169583, 7),
                        ("i32", "f32", 1000003 * 999983, 1000033 * 1000037), ("f32", "i64", 5, 142903 * 169583),
                        ("u16", "f80", 1, 142903 * 169583)]
+# rational factors > 1 whose numerator is a power of two: only for them lowest(P)/N (resp. (max(P)+1)/N) is an integer, so
+# that x*N lands EXACTLY on the limit of the promoted type — the guard boundary of Min/MaxNonOverflowingValue
+POW2_NUM_FACTORS = [(4, 3), (8, 5), (128, 125), (2 ** 20, 3 ** 11)]
+POW2_NUM_PAIRS = [("i32", "i32"), ("i64", "i64"), ("i16", "i32"), ("i32", "i16"), ("u32", "u32"), ("u64", "u64"), ("u16", "u32"), ("u32", "u16"),
+                  ("i64", "i32"), ("i32", "u32"), ("i8", "i64")]
 HUGE_SOURCES = ["i8", "u8", "i32", "i64", "u64"]
 HUGE_FACTORS = {
     "f32": [(10 ** 20, 1), (10 ** 24, 1), (10 ** 30, 1), (10 ** 37, 1), (2 ** 100, 1), (3 * 10 ** 36, 7),
@@ -431,7 +440,11 @@ def int_points(rng, ins, count):
             l, h = lo_hi(ty)
             bounds += [l, h, h + 1, l - 1, Fraction(l * d, n), Fraction(h * d, n), Fraction((h + 1) * d, n), Fraction((l - 1) * d, n)]
         pl, ph = lo_hi(p)
-        bounds += [Fraction(pl, n), Fraction(ph, n), Fraction(ph + 1, n)]
+        bounds += [Fraction(pl, n), Fraction(ph, n), Fraction(ph + 1, n), Fraction(pl - 1, n)]
+        # both limits of the overflow checker as the MODEL computes them (Min/MaxNonOverflowingValue of the common type)
+        for key in ("cert_lo", "cert_hi"):
+            if key in ins:
+                bounds.append(ins[key])
     else:
         _, p, _ = FLT[c]
         bounds += [2 ** p, -(2 ** p), 2 ** (p - 1), Fraction(2 ** p * d, n), 2 ** p + 2 ** (p - 24) if p > 24 else 2 ** p]
@@ -1318,6 +1331,11 @@ def explore(tier, seed, rng, wd, only=None, only_casts=None):
     if _REPLAY_CONFIG:
         configs = [_REPLAY_CONFIG]
     npts = 28 if tier == "quick" else 250     # random volume only; the directed points are always generated
+    icom = [i for i in live if is_int(i["C"]) and "xs" not in i]
+    for i, a in zip(icom, drv.ask([f"cert {i['C']} {i['N']} {i['D']}" for i in icom])):
+        c = kv(a)
+        if "lo" in c:
+            i["cert_lo"], i["cert_hi"] = int(c["lo"]), int(c["hi"])
     pts = {}
     for i in live:
         if "xs" in i:
